@@ -26,6 +26,8 @@ Definition slice_from {A} (l : list A) (k : Z) : list A := skipn (Z.to_nat k) l.
 Definition q_hash_is_empty (q : query) : bool := match q with QNoop _ => true | _ => false end.
 (* query._operator == operator.<c> : only a comparison built by ==, !=, <, <=, >, >= carries a function of `operator` *)
 Definition q_op_is (q : query) (c : cmp) : bool := match q with QS _ _ (TCmp c' _) => cmp_eqb c c' | _ => false end.
+(* the same test after `if not isinstance(rhs, datetime): op = None`: only a comparison that carries a datetime *)
+Definition q_op_is_dt (q : query) (c : cmp) : bool := match q with QS _ _ (TCmp c' (VTime _)) => cmp_eqb c c' | _ => false end.
 (* query._rhs.timestamp() : None = AttributeError (the comparison value is not a datetime) *)
 Definition q_rhs_stamp (q : query) : option Z := match q with QS _ _ (TCmp _ (VTime t)) => Some t | _ => None end.
 (* query._path_resolver / query._test of a SimpleQuery; noop: identity / lambda _: True *)
